@@ -1,5 +1,9 @@
 """C14 - x86-64 GOT relaxations preserve instruction semantics.
 
+0. TLS: MCX86Tls enumerates GD / LD / IE (mov, add; 7 registers) / TLSDESC accesses x 4 variables x
+   {exe, static PIE}; TlsSafe (sign-extended 32-bit offset suffices iff the offset fits) is model-checked;
+   each access sequence is executed as linked by wild and must yield the address that the un-relaxable
+   local-exec sequence yields (a dummy __tls_get_addr returns 0xdead).
 1. TLC (specs/X86Relax.tla, MCX86Relax.tla, Word64.tla): the case table
    form (mov/add/sub/and/or/xor/cmp/test/adc/sbb x 32/64 bit, call*, jmp*) x relocation style
    (GOTPCRELX / plain GOTPCREL) x register x symbol kind (absolute / defined in the image / undefined
@@ -19,6 +23,7 @@
    apply); it is counted, not reported.
 """
 import os
+import threading
 import re
 import struct
 from concurrent.futures import ThreadPoolExecutor
@@ -33,13 +38,21 @@ META = {
     "level": "model_checking",
     "technique": "TLA+ case table of relaxable x86-64 instruction forms with their specified effect on 64-bit words (X86Relax.tla) enumerated by TLC; every case executed natively as linked by the real wild (the CPU is the oracle), the applied rewrite read back with objdump, GNU ld as sanity of the test programs",
     "level_text": "TLC enumerates every combination of GOT-indirect instruction form (10 ALU/mov operations x 32/64-bit, call*, jmp*), relocation style, destination register (9 in quick, all 16 in thorough, including rsp), symbol kind (absolute via --defsym and via .set, local/hidden/default definitions, undefined weak), output kind (non-PIE, static PIE) and value class (0x1000 .. 2^31-1, 2^31, 2^32-1, 2^32, ...); the psABI rewrite table is model-checked safe on all of them; each case is linked by the real wild and executed, comparing destination register and arithmetic flags with the specified effect and with the un-relaxable register form executed by the same CPU.",
-    "level_note": "TLS relaxations (GD/LD/IE/TLSDESC -> local-exec), REX2/EVEX (APX) forms and IFUNC symbols are NOT covered: GNU as 2.40 cannot assemble APX and this CPU cannot execute it; shared-object outputs are not executed. Flags are compared against the hardware, not specified in TLA+. Trusted base: TLC, the CPU, GNU as, the self-relocation prologue of the test programs.",
+    "level_note": "REX2/EVEX (APX) forms and IFUNC symbols are NOT covered: GNU as 2.40 cannot assemble APX and this CPU cannot execute it; shared-object outputs (and so GD->IE, TLSDESC->IE) are not executed; TLS GD/LD/IE/TLSDESC -> local-exec are checked for the resulting address only, large-model TLS sequences not at all. Flags are compared against the hardware, not specified in TLA+. Trusted base: TLC, the CPU, GNU as, the self-relocation prologue of the test programs.",
     "engine": "tlc",
 }
 VALUES = {"0x1000": 0x1000, "0x10000": 0x10000, "0x7fffffff": 0x7fffffff, "0x80000000": 0x80000000,
           "0xffffffff": 0xffffffff, "0x100000000": 0x100000000, "0xffffffff80000000": 0xffffffff80000000,
           "0x7ffffffff000": 0x7ffffffff000, "0": 0}
 WILD_FLAGS = ["--threads=2"]
+
+
+_LOCK = threading.Lock()
+
+
+def bump(dct, key, n=1):
+    with _LOCK:
+        dct[key] = dct.get(key, 0) + n
 
 
 def wild_bin():
@@ -67,6 +80,16 @@ def run_spec(ctx, cov):
     cov["transitions"] = r.generated
     cov["tlc_runs"] = [{"cfg": cfg, **r.summary()},
                        {"cfg": "mc/X86Relax_wildmodel.cfg", "expected_violation": a.violated, "states_to_find": a.distinct}]
+    t = tlc.run_tlc("MCX86Tls", "mc/X86Tls.cfg", workers=2, timeout=600, jvm_opts=["-Xss64m"])
+    tu = tlc.run_tlc("MCX86Tls", "mc/X86Tls_unconditional.cfg", workers=2, timeout=600, coverage=False)
+    if t.timed_out or not t.ok:
+        raise ToolError(f"MCX86Tls failed: {t.violated} {t.error_text}\n{t.out[-1000:]}")
+    if tu.violated != "TlsSafeUnconditional":
+        raise ToolError("anti-vacuity: TLS rewrite safe without its side condition?")
+    cov["states"] += t.distinct
+    cov["transitions"] += t.generated
+    cov["tlc_runs"].append({"cfg": "mc/X86Tls.cfg", **t.summary()})
+    cov["tls_cases"] = t.records
     cases = r.records
     for c in cases:
         c["effect"] = word(c["effect"])
@@ -274,51 +297,49 @@ def run(ctx):
              "excluded_ld_deviates_too": 0, "crashed_programs": 0, "rewrites_seen": {}}
     findings = {}
     samples = []
-    budget = [60 if ctx.quick else 600]
+    max_depth = 2 if ctx.quick else 5
     box = {}
 
     def handle(args):
         gi, (g, tests) = args
-        return do_group(f"g{gi}", g, tests)
+        return do_group(f"g{gi}", g, tests, 0)
 
-    def do_group(name, g, tests):
+    def do_group(name, g, tests, depth):
         out_kind, style = g[0], g[1]
         sub = box["d"] / name
         sub.mkdir(exist_ok=True)
         main, syms, defsyms = build_program(sub, "p", tests, style)
         n = len(tests)
-        stats["tests"] += 0
+        bump(stats, "tests", 0)
         lw = run_wild(link_args(main, syms, defsyms, out_kind, "p.wild") + WILD_FLAGS, cwd=sub, timeout=60, wild=wild_bin())
         ll = asm.gnu_ld(link_args(main, syms, defsyms, out_kind, "p.ld"), cwd=sub, timeout=60)
         ld_obs = None
         if ll.rc == 0:
             st, ld_obs = run_binary(sub, "p.ld", n)
         else:
-            stats["ld_link_refused"] += 1
+            bump(stats, "ld_link_refused", 1)
         if lw.rc != 0 or lw.timed_out:
             if lw.klass() in ("panic", "hang") or lw.klass().startswith("signal"):
                 findings.setdefault(f"linker-crash:{lw.klass()}", []).append(
                     (f"wild {lw.klass()} linking a relaxation test program: {lw.err[:200]}", sub, tests, None))
                 return
-            if n > 1 and budget[0] > 0:
-                # one refused relocation hides the other tests: split
-                budget[0] -= 1
+            if n > 1 and depth < max_depth:
+                # one refused relocation hides the other tests: split (deterministically, bounded depth)
                 h = n // 2
-                do_group(name + "a", g, tests[:h])
-                do_group(name + "b", g, tests[h:])
+                do_group(name + "a", g, tests[:h], depth + 1)
+                do_group(name + "b", g, tests[h:], depth + 1)
                 return
-            stats["wild_link_refused"] += n
+            bump(stats, "wild_link_refused", n)
             return
         st, obs = run_binary(sub, "p.wild", n)
         rws = disasm_rewrites(sub, "p.wild", n)
         if st != "ok":
-            if n > 1 and budget[0] > 0:
-                budget[0] -= 1
+            if n > 1:
                 h = n // 2
-                do_group(name + "a", g, tests[:h])
-                do_group(name + "b", g, tests[h:])
+                do_group(name + "a", g, tests[:h], depth + 1)
+                do_group(name + "b", g, tests[h:], depth + 1)
                 return
-            stats["crashed_programs"] += 1
+            bump(stats, "crashed_programs", 1)
             if n == 1:
                 t = tests[0]
                 ins, rw = rws.get(0, ("?", "?"))
@@ -326,12 +347,12 @@ def run(ctx):
                     findings.setdefault(key_of(t, rw, "crash"), []).append(
                         (f"{describe(t)}: program linked by wild {st} (instruction became `{ins}`)", sub, tests, 0))
                 else:
-                    stats["excluded_ld_deviates_too"] += 1
+                    bump(stats, "excluded_ld_deviates_too", 1)
             return
         for i, (t, o) in enumerate(zip(tests, obs)):
             ins, rw = rws.get(i, ("?", "?"))
-            stats["rewrites_seen"][rw] = stats["rewrites_seen"].get(rw, 0) + 1
-            stats["executed_wild"] += 1
+            bump(stats["rewrites_seen"], rw)
+            bump(stats, "executed_wild", 1)
             sym = judge(t, o)
             if sym is None:
                 if len(samples) < 4 and rw != "none" and i % 7 == 0:
@@ -339,7 +360,7 @@ def run(ctx):
                                     "reference": hex(o["rres"])})
                 continue
             if ld_obs is not None and judge(t, ld_obs[i]) is not None:
-                stats["excluded_ld_deviates_too"] += 1
+                bump(stats, "excluded_ld_deviates_too", 1)
                 continue
             findings.setdefault(key_of(t, rw, sym), []).append(
                 (f"{describe(t)}: wild rewrote the instruction to `{ins}`; register 0x{o['res']:x} flags 0x{o['flg'] & 0x8d5:x}, "
@@ -358,7 +379,7 @@ def run(ctx):
         box["d"] = d
         items = list(enumerate(sorted(groups.items(), key=lambda kv: kv[0])))
         stats["tests"] = sum(len(v) for v in groups.values())
-        with ThreadPoolExecutor(max_workers=4 if ctx.quick else 8) as ex:
+        with ThreadPoolExecutor(max_workers=8) as ex:
             list(ex.map(handle, items))
         for key, obs in sorted(findings.items()):
             text, sub, tests, idx = obs[0]
@@ -378,6 +399,47 @@ def run(ctx):
                     "case": {k: v for k, v in c.items() if k not in ("wild", "psabi")},
                     "observations_in_this_class": len(obs), "more": [o[0] for o in obs[1:5]]})
             ctx.verdict.report(key, f"{len(obs)} cases, e.g. {text}", mk)
+        # ---- TLS forms: one program per output kind
+        tls_stats = {"tests": 0, "executed_wild": 0, "sequences_seen": {}}
+        for out_kind in ("exe", "pie"):
+            tcases = [c for c in cov["tls_cases"] if c["out"] == out_kind]
+            sub = d / f"tls_{out_kind}"
+            sub.mkdir()
+            body = "".join(X.tls_test(i, c["form"], c["reg"], c["var"]) for i, c in enumerate(tcases))
+            (sub / "p.s").write_text(X.tls_program(body, len(tcases)))
+            main = asm.assemble(sub / "p.s", sub / "p.o")
+            extra = ["-pie", "--no-dynamic-linker"] if out_kind == "pie" else []
+            ll = asm.gnu_ld([main.name] + extra + ["-o", "p.ld"], cwd=sub)
+            if ll.rc != 0:
+                raise ToolError(f"GNU ld cannot link the TLS test program: {ll.err[-300:]}")
+            st, lobs = run_binary(sub, "p.ld", len(tcases))
+            if st != "ok" or any(o["res"] != o["rres"] for o in lobs):
+                raise ToolError(f"TLS test program is not sane under GNU ld ({out_kind}): {st}")
+            lw = run_wild([main.name] + extra + ["-o", "p.wild"] + WILD_FLAGS, cwd=sub, timeout=60, wild=wild_bin())
+            bump(tls_stats, "tests", len(tcases))
+            files = {"p.s": (sub / "p.s").read_text()}
+            cmd = f"as --64 -o p.o p.s; wild p.o {' '.join(extra)} -o p.wild; ./p.wild | od -A d -t x8"
+            if lw.rc != 0:
+                ctx.verdict.report(f"tls-link-failed:{out_kind}:{lw.klass()}", f"wild cannot link the TLS forms program ({out_kind}): {lw.err[:200]}",
+                                   lambda files=files, cmd=cmd: save_replay(PROP, f"tls-link-{out_kind}", files=files, meta={"cmd": cmd}))
+                continue
+            st, wobs = run_binary(sub, "p.wild", len(tcases))
+            rws = disasm_rewrites(sub, "p.wild", len(tcases))
+            if st != "ok":
+                ctx.verdict.report(f"tls-program-{st}:{out_kind}", f"TLS forms program linked by wild: {st} (GNU ld's runs fine)",
+                                   lambda files=files, cmd=cmd: save_replay(PROP, f"tls-run-{out_kind}", files=files, meta={"cmd": cmd}))
+                continue
+            for i, (c, o) in enumerate(zip(tcases, wobs)):
+                ins = rws.get(i, ("?", "?"))[0]
+                bump(tls_stats, "executed_wild", 1)
+                k = f"{c['form']}: " + re.sub(r"0x[0-9a-f]+", "N", ins)
+                tls_stats["sequences_seen"][k] = tls_stats["sequences_seen"].get(k, 0) + 1
+                if o["res"] != o["rres"]:
+                    ctx.verdict.report(
+                        f"tls-address:{c['form']}:{out_kind}",
+                        f"TLS {c['form']} access to {c['var']} (%{X.R64[c['reg']]}, {out_kind}) yields 0x{o['res']:x}, local-exec form 0x{o['rres']:x}; first instruction now `{ins}`",
+                        lambda files=files, cmd=cmd, i=i: save_replay(PROP, f"tls-{out_kind}", files=files, meta={"cmd": cmd, "test_index": i}))
+        cov["tls_replay"] = tls_stats
         # binding demonstration: a corrupted observation must be judged a deviation
         t0 = dict(case=dict(op="mov", w=64, reg=0, kind="abs", value="0x1000", out="exe", style="x", effect=0x1000),
                   sym="ad1000", val=0x1000)
@@ -391,7 +453,8 @@ def run(ctx):
                                lambda: save_replay(PROP, "injected", files={}, meta={}))
     cov["replay"] = stats
     cov["deviation_classes"] = {k: len(v) for k, v in findings.items()}
-    cov["traces_validated_against_impl"] = stats["executed_wild"]
+    cov["traces_validated_against_impl"] = stats["executed_wild"] + cov["tls_replay"]["executed_wild"]
+    del cov["tls_cases"]
     cov["samples"] = trim_samples(samples + [{"class": k, "example": v[0][0]} for k, v in list(findings.items())[:2]], 5, 600)
     return {
         "level": "model_checking",
@@ -400,6 +463,6 @@ def run(ctx):
             "the CPU executing the register-operand form is the reference for flags; the TLA+ Effect is the reference for the destination register of absolute-symbol cases",
             "static PIE test programs apply their own R_X86_64_RELATIVE relocations (prologue in vlib/x86prog.py)",
             "tests on which the program linked by GNU ld deviates as well are excluded (e.g. GNU ld treats --defsym symbols as image-relative in a PIE)",
-            "TLS, APX (REX2/EVEX) and IFUNC relaxations are not exercised",
+            "TLS forms are checked for the computed ADDRESS (against the local-exec form executed by the same CPU) in executables only; APX (REX2/EVEX) and IFUNC relaxations are not exercised",
         ],
     }
